@@ -251,6 +251,19 @@ def _unique_inputs_block(chk: Check, fn: FuncInfo, send_pred, lookup: str, store
     stores = [c for c in body_calls(fn) if last_attr(c) == store]
     none_store = [c for c in stores if len(c.args) >= 2 and isinstance(c.args[1], ast.Constant) and c.args[1].value is None]
     exc_store = [c for c in stores if len(c.args) >= 2 and isinstance(c.args[1], ast.Name)]
+    # an input whose request ERRORS (connection error, timeout, exception in a hook / custom check) is an outcome too
+    from ..cfg import match_handler
+
+    covered = None
+    for c in sends:
+        t_ = next((a for a in ancestors(c) if isinstance(a, ast.Try) and any(is_within(c, s_) for s_ in a.body)), None)
+        if t_ is None:
+            continue
+        storing = [h for h in t_.handlers if any(last_attr(x) == store for x in calls(h))]
+        covered = any(match_handler("Exception", handler_classes(h)) == "yes" for h in storing)
+    if covered is not None:
+        chk.decide(covered, "C12.R4", fn, "the outcome of an ERRORING input is stored too (catch-all handler around the send)",
+                   "only check failures are remembered: an input whose request errors (connection error, timeout, hook / custom check exception) is not cached, so Hypothesis' shrink and replay send the very same request again although unique inputs are on", fn.loc())
     chk.decide(bool(none_store), "C12.R4", fn, "successful outcome stored", "successful inputs are never remembered: they are sent again", fn.loc())
     chk.decide(bool(exc_store), "C12.R4", fn, "failing outcome stored", "failing inputs are never remembered: they are sent again", fn.loc())
 
